@@ -19,7 +19,7 @@ pub fn prop() -> Prop {
         max_len: 500,
         quick: 200_000,
         thorough: 1_200_000,
-        rule: "choice sequence -> function (known ids 0-15, large, named incl. registry names, empty, non-ASCII) x 0-5 parameters (known / named, repeated parameter, repeated pair) with values of every envelope kind (leaf zoo, known value, wrapped, node, assertion, obscured) x ARID x note (empty / non-empty / non-ASCII) x date (absent; integral +/-; dyadic fraction; from_ymd_hms; from_string) x kind {Expression, Request, Response success default / with result / failure / failure with error / early failure, Event<String>, Event<Envelope>, Event<Expression>}; malformed variants: second body/content/result/error, part removed, both result and error, subject retagged (request<->response<->event, untagged ARID, wrong inner type, other known value), non-string note, non-date date, body that is not an expression, expected function != actual. oracle: T::try_from(Envelope::from(v)) == v directly and after to_cbor_data -> decode, field by field besides PartialEq; the envelope equals the harness's model of the documented shape (subject #6.40004/5/26(ARID), 'body'/'content'/'result'/'error', 'note' iff non-empty, 'date' iff present, parameters as #6.40007 predicates); every malformed variant gives Err. non-trivial: >=1 parameter with a non-leaf value, or a malformed variant; distinct by FNV-64 of the envelope encoding",
+        rule: "choice sequence -> function (known ids 0-15, large, named incl. registry names, empty, non-ASCII) x 0-5 parameters (known / named, repeated parameter, repeated pair) with values of every envelope kind (leaf zoo, known value, wrapped, node, assertion, obscured) x ARID x note (empty / non-empty / non-ASCII) x date (absent; integral +/-; dyadic fraction; from_ymd_hms; from_string) x kind {Expression, Request, Response success default / with result / failure / failure with error / early failure, Event<String>, Event<Envelope>, Event<Expression>}; malformed variants: second body/content/result/error, part removed, both result and error, subject retagged (request<->response<->event, untagged ARID, wrong inner type, other known value), non-string note, non-date date, body that is not an expression, expected function != actual. oracle: T::try_from(Envelope::from(v)) == v directly and after to_cbor_data -> decode, field by field besides PartialEq; the envelope equals the harness's model of the documented shape (subject #6.40004/5/26(ARID), 'body'/'content'/'result'/'error', 'note' iff non-empty, 'date' iff present, parameters as #6.40007 predicates); every malformed variant gives Err. non-trivial: >=1 parameter with a non-leaf value, or a malformed variant; distinct by FNV-64 of the envelope encoding; the None arms of with_optional_result / with_optional_error",
         assumptions: &["dates are drawn from the public constructors and only fixed points of dcbor's own Date <-> CBOR conversion are used (others are counted as excluded_dependency_date): a limitation of dcbor 0.17.1, outside /repo"],
         extra: None,
     }
